@@ -1,6 +1,7 @@
 SPECIFICATION Spec
 CONSTANTS Messages <- MCMessages
           AsCoded = FALSE
+          Fixed = FALSE
           Mode = "conn"
           MaxMsgs = 2
           HasTimeout = FALSE
